@@ -5,6 +5,7 @@ use crate::engine::{Ctx, Outcome};
 pub mod c01;
 pub mod c02;
 pub mod c03;
+pub mod c04;
 pub mod c05;
 pub mod c06;
 pub mod c07;
@@ -19,10 +20,13 @@ pub mod c15;
 pub mod c16;
 pub mod c17;
 pub mod c18;
+pub mod c19;
 
 pub struct Prop {
     pub check: fn(&Ctx),
     pub replay: fn(&str, &Value) -> Option<Outcome>,
+    /// child-process mode for sharded spaces: (tier, space, start, end) -> result JSON
+    pub worker: Option<fn(crate::engine::Tier, &str, u64, u64) -> Option<Value>>,
 }
 
 pub fn lookup(id: &str) -> Option<Prop> {
@@ -30,70 +34,97 @@ pub fn lookup(id: &str) -> Option<Prop> {
         "C01" => Prop {
             check: c01::check,
             replay: c01::replay,
+            worker: None,
         },
         "C02" => Prop {
             check: c02::check,
             replay: c02::replay,
+            worker: None,
         },
         "C03" => Prop {
             check: c03::check,
             replay: c03::replay,
+            worker: None,
+        },
+        "C04" => Prop {
+            check: c04::check,
+            replay: c04::replay,
+            worker: Some(c04::worker),
         },
         "C05" => Prop {
             check: c05::check,
             replay: c05::replay,
+            worker: None,
         },
         "C06" => Prop {
             check: c06::check,
             replay: c06::replay,
+            worker: None,
         },
         "C07" => Prop {
             check: c07::check,
             replay: c07::replay,
+            worker: None,
         },
         "C08" => Prop {
             check: c08::check,
             replay: c08::replay,
+            worker: None,
         },
         "C09" => Prop {
             check: c09::check,
             replay: c09::replay,
+            worker: None,
         },
         "C10" => Prop {
             check: c10::check,
             replay: c10::replay,
+            worker: None,
         },
         "C11" => Prop {
             check: c11::check,
             replay: c11::replay,
+            worker: None,
         },
         "C12" => Prop {
             check: c12::check,
             replay: c12::replay,
+            worker: None,
         },
         "C13" => Prop {
             check: c13::check,
             replay: c13::replay,
+            worker: None,
         },
         "C14" => Prop {
             check: c14::check,
             replay: c14::replay,
+            worker: None,
         },
         "C15" => Prop {
             check: c15::check,
             replay: c15::replay,
+            worker: None,
         },
         "C16" => Prop {
             check: c16::check,
             replay: c16::replay,
+            worker: None,
         },
         "C17" => Prop {
             check: c17::check,
             replay: c17::replay,
+            worker: None,
         },
         "C18" => Prop {
             check: c18::check,
             replay: c18::replay,
+            worker: None,
+        },
+        "C19" => Prop {
+            check: c19::check,
+            replay: c19::replay,
+            worker: Some(c19::worker),
         },
         _ => return None,
     })
